@@ -266,44 +266,51 @@ Definition new_token (t : lst) (x : text) : res token :=
   | Some sid => Ok (mkTok (Some x) (to_i64 sid))
   end.
 
-(* strconv.Atoi on a 64-bit platform: [+-]?[0-9]+ with the value in int64 *)
+(* the digits of symbolIdentifier: every byte in '0'..'9'; the value, most significant first *)
+Definition sid_digit (c : N) : bool := (48 <=? c) && (c <=? 57).
+Definition sid_digits_value (l : list N) : N := fold_left (fun a c => a * 10 + (c - 48)) l 0.
+(* strconv.ParseInt(s, 10, 64) of a string of decimal digits: the value when it fits an int64 *)
 Fixpoint digits_val (l : list N) (acc : N) : option N :=
   match l with
   | [] => Some acc
-  | c :: r => if (48 <=? c) && (c <=? 57) then digits_val r (acc * 10 + (c - 48)) else None
+  | c :: r => if sid_digit c then digits_val r (acc * 10 + (c - 48)) else None
   end.
-Definition atoi_body (neg : bool) (ds : list N) : option Z :=
+Definition parse_int64_digits (ds : list N) : option Z :=
   match ds with
   | [] => None
   | _ => match digits_val ds 0 with
          | None => None
-         | Some v =>
-           if neg then (if v <=? two63 then Some (- Z.of_N v)%Z else None)
-           else (if v <? two63 then Some (Z.of_N v) else None)
+         | Some v => if v <? two63 then Some (Z.of_N v) else None
          end
   end.
-Definition atoi (l : list N) : option Z :=
-  match l with
-  | 43 :: r => atoi_body false r
-  | 45 :: r => atoi_body true r
-  | _ => atoi_body false l
-  end.
 
-(* symbolIdentifier *)
+(* symbolIdentifier: '$', then one or more decimal digits and nothing else (no
+   sign), then ParseInt on the digits *)
 Definition symbol_identifier (x : text) : Z * bool :=
   match x with
   | 36 :: ((_ :: _) as r) =>
-    match atoi r with
-    | Some sid => (sid, true)
-    | None => (sid_unknown, false)
-    end
+    if forallb sid_digit r then
+      match parse_int64_digits r with
+      | Some sid => (sid, true)
+      | None => (sid_unknown, false)
+      end
+    else (sid_unknown, false)
   | _ => (sid_unknown, false)
+  end.
+
+(* isSymbolIDOutOfRange: '$' and digits only, yet not a symbol identifier *)
+Definition symbol_id_out_of_range (x : text) : bool :=
+  match x with
+  | 36 :: ((_ :: _) as r) => forallb sid_digit r && negb (snd (symbol_identifier x))
+  | _ => false
   end.
 
 (* newSymbolToken *)
 Definition new_symbol_token_auto (t : lst) (x : text) : res token :=
   let '(sid, ok) := symbol_identifier x in
-  if ok then new_token_by_sid t sid else new_token t x.
+  if ok then new_token_by_sid t sid
+  else if symbol_id_out_of_range x then Err
+  else new_token t x.
 
 (* ---- catalog ----------------------------------------------------------------------- *)
 (* NewCatalog(ssts...): the entries in argument order.  ssts[name/version] is
